@@ -823,8 +823,13 @@ static var Zip_Get(var self, var key) {
   struct Tuple* iters = z->iters;
   size_t num = len(iters);
   
+  /* Look every item up before storing any: an index one input refuses leaves `values` as it was */
+  var items[num > 0 ? num : 1];
   for (size_t i = 0; i < num; i++) {
-    values->items[i] = get(iters->items[i], key);
+    items[i] = get(iters->items[i], key);
+  }
+  for (size_t i = 0; i < num; i++) {
+    values->items[i] = items[i];
   }
   
   return values;
